@@ -29,13 +29,17 @@ DEPS = ("gen/Gen_Portfolio.tla",)
 
 
 BLOCKED = [0]
+probe_id = [0]
 
 
 def run_schedule(env, sched, hooks, rounds=1, model_change=False):
     m = env.formula_manager
     p, q, x = m.Symbol("p", BOOL), m.Symbol("q", BOOL), m.Symbol("x", INT)
     asserts = [m.Or(p, q), m.LE(x, m.Int(2)), m.Implies(q, m.LE(m.Int(1), x))]
-    sat_model = [(p, m.TRUE()), (q, m.FALSE()), (x, m.Int(1))]
+    # (numbers the parent never builds itself: the members create these constants in their own processes)
+    # fresh numbers for every schedule: once the parent has seen a constant, every later member inherits it at fork
+    base_v = -(1000 + 4 * probe_id[0])
+    sat_model = [(p, True), (q, False), (x, base_v)]
     n = len(sched["beh"])
     names = ["fake%d" % i for i in range(1, n + 1)]
     for i in range(1, n + 1):
@@ -55,18 +59,28 @@ def run_schedule(env, sched, hooks, rounds=1, model_change=False):
                 # ... or with the SAME verdict and another model: the second answer is sat again, but only q = true
                 # satisfies the assertions now - the model handed out after the first solve must not be handed out again
                 verdict = "sat"
-                extra = q
+                extra = m.And(q, m.LE(x, m.Int(2)), m.LE(m.Int(1), x)) if rnd % 4 == 1 and sched["tie"] else m.LE(x, m.Int(base_v - 1))
                 port.add_assertion(extra)
                 asserts = asserts + [extra]
-                sat_model = [(p, m.TRUE()), (q, m.TRUE()), (x, m.Int(2))]
+                sat_model = [(p, True), (q, True), (x, 2)] if extra.is_and() else [(p, True), (q, False), (x, base_v - 2)]
             elif verdict == "unsat":
                 extra = m.LE(m.Int(5), x)
                 port.add_assertion(extra)
                 asserts = asserts + [extra]
+        # The ids of the nodes a member creates in its process are unrelated to the ids the parent gives to equal nodes.
+        # The harness makes the worst case happen: the new constant of the SECOND model gets, in the member, the id the
+        # new constant of the first model had there (the members create `garbage` nodes of their own first).
+        probe_id[0] += 1
+        next_id = m.Symbol("id_probe_%d" % probe_id[0], INT).node_id() + 1
+        if rnd == 0:
+            garbage = 12
+            first_value_id = next_id + garbage
+        else:
+            garbage = first_value_id - next_id if first_value_id >= next_id else 0
         for i in range(1, n + 1):
             b = sched["beh"][i - 1]
             pm.CONFIG[i] = dict(beh=("ans" if b == "ans" else b), verdict=verdict, gate=pm.Gate(),
-                                crash_gate=pm.Gate(), model=sat_model)
+                                crash_gate=pm.Gate(), model=sat_model, garbage=garbage)
             if b == "ans":
                 pm.CONFIG[i]["beh"] = "answer"
         hooks.new_round()
